@@ -100,6 +100,10 @@ MULTI: Dict[str, Dict[str, str]] = {
     'init-shadows-submodule-reexport': {'pk/__init__.py': 'from .impl import thing, other as views\n__all__ = ["thing", "views", "settings"]\nsettings = 1\n', 'pk/impl.py': 'def thing(): "t"\nclass other:\n    "o"\n',
                                         'pk/thing.py': 'class T:\n    def m(self): "L{T}"\n', 'pk/views.py': 'def v(): pass\n', 'pk/settings.py': 'y = 2\n', '__no_page__': 'thing views settings'},
     'class-attr-shadows': {'pk/__init__.py': '', 'pk/a.py': 'class K:\n    class N: pass\n    N = 1\n    def f(self): pass\n    f = 2\n    g = 3\n    def g(self): pass\n    import os as h\n    h: int = 4\n'},
+    'dup-in-dup-then-reexported': {'pk/__init__.py': 'from ._compat import Backend, helper\n__all__ = ["Backend", "helper"]\n',
+                                   'pk/_compat.py': 'class Backend:\n    class Reader:\n        def read(self): "1"\n        def read(self): "2"\n    if True:\n        class Reader:\n            def read(self): "3"\n'
+                                                    'def helper(): "a"\ndef helper(): "b"\ndef helper(): "c"\n',
+                                   'pk/legacy.py': 'class Backend:\n    class Reader:\n        def read(self): "1"\n        def read(self): "2"\n    class Reader:\n        pass\nclass Backend:\n    pass\n'},
     'unparsable-imported-first': {'pk/__init__.py': '', 'pk/alpha.py': 'from .zbroken import helper\nfrom .zbroken import *\nimport pk.zbroken\nclass A(pk.zbroken.B): pass\n', 'pk/zbroken.py': 'def (:\n'},
 }
 
